@@ -318,3 +318,25 @@ macro_rules! for_all_doms {
         $f::<usize>($($arg),*);
     }};
 }
+
+/// BFS state carrying an arbitrary value, hashed/compared by an explicit key
+/// (the full component tuple of the value: canonicalisation drops nothing observable).
+#[derive(Clone, Debug)]
+pub struct Keyed<X: Clone> {
+    pub key: Vec<(i128, i128)>,
+    pub val: X,
+}
+impl<X: Clone> PartialEq for Keyed<X> {
+    fn eq(&self, o: &Self) -> bool {
+        self.key == o.key
+    }
+}
+impl<X: Clone> Eq for Keyed<X> {}
+impl<X: Clone> std::hash::Hash for Keyed<X> {
+    fn hash<H: std::hash::Hasher>(&self, h: &mut H) {
+        self.key.hash(h);
+    }
+}
+pub fn keys<T: Dom>(v: &[T]) -> Vec<(i128, i128)> {
+    v.iter().map(|x| x.key()).collect()
+}
